@@ -72,3 +72,39 @@ Definition check_write_old
   | _, _, _ => oerr_eqb r err
   end &&
   forallb (fun ne => Z.eqb (effect fs fs' (fst ne)) (snd ne)) effs.
+
+(* diagnosis of a disagreement, for the replay file: 0 = agrees; 1 = the
+   aggregates reported for an initial construct differ from the model's;
+   10+k = step k (from 0) is not explained by the model (500+k: its
+   aggregates); 1000 = error class; 1001 = file effects *)
+Fixpoint diag_steps (e : list field) (l : list step_case) (k : nat) : nat + list field :=
+  match l with
+  | [] => inr e
+  | (o, reg, obs, orig, files) :: r =>
+      let e1 := step e o in
+      match nth_error e1 reg with
+      | Some p =>
+          if negb (field_refb obs p) then inl (10 + k)%nat
+          else if negb (agg_ok obs orig files) then inl (500 + k)%nat
+          else diag_steps (set_nth reg obs e1) r (S k)
+      | None => inl (10 + k)%nat
+      end
+  end.
+
+Definition diag_case
+  (cs : list (field * list fname * list fname) * list step_case *
+        (fsys * list nat * fname * wopts * list (fname * Z) * option errk)) : nat :=
+  let '(init, steps, (fs, sel, x, o, effs, err)) := cs in
+  if negb (forallb (fun t => let '(f, orig, files) := t in agg_ok f orig files) init) then 1%nat
+  else match diag_steps (map (fun t => fst (fst t)) init) steps 0 with
+  | inl n => n
+  | inr e =>
+      let fields := flat_map (fun i => match nth_error e i with Some f => [f] | None => [] end) sel in
+      let (fs', r) := write_model guard fs fields x o 1000 in
+      if negb (match w_fault o, r, err with
+               | FLate, Some OtherErr, Some _ => true
+               | _, _, _ => oerr_eqb r err
+               end) then 1000%nat
+      else if negb (forallb (fun ne => Z.eqb (effect fs fs' (fst ne)) (snd ne)) effs) then 1001%nat
+      else 0%nat
+  end.
